@@ -95,7 +95,10 @@ Inductive pcT :=
 | PUnlock           (* _unlock_names *)
 | PObs              (* _obsolete_packs: first pack moved to obsolete_packs/ *)
 | PObsMore          (* silent: remaining packs of the same _obsolete_packs loop *)
-| PRead             (* reader: all_revision_ids + get_revision over its view *)
+| PCount            (* pack(): _try_pack_operations reads the revision indices (get_revision_count) *)
+| PRead             (* reader: all_revision_ids over its view (revision indices) *)
+| PRead2            (* reader: get_revision / revision_tree of every revision (pack data, inventory indices) *)
+| PRead3            (* reader: walks the lazily loaded inventories (CHK pages through the chk indices) *)
 | PReload (k : pcT) (* reload_pack_names after a missing file, then continue at k *)
 | PDone | PFail.
 
@@ -134,10 +137,12 @@ Definition repacked (pl : list pname) : pname := PN (all_revs pl) true.
 Definition step_proc (p : nat) (s : shared) (pr : proc) : option (shared * proc) :=
   match pc pr with
   | PStart =>
-      let k := match prole pr with RCommit _ => PCheck | RPack => PMkPlan | RRead => PRead end in
+      let k := match prole pr with RCommit _ => PCheck | RPack => PCount | RRead => PRead end in
       Some (s, Proc (prole pr) k (disk s) (disk s) [] [] false [] [] (reloads pr))
   | PCheck =>
       Some (s, set_pc pr (if subset (names pr) (packs s) then PAdd else PReload PCheck))
+  | PCount =>
+      Some (s, set_pc pr (if subset (names pr) (packs s) then PMkPlan else PReload PCount))
   | PReload k =>
       (* reload_pack_names: _packs_at_load := orig disk; _names := merged; True iff changed *)
       let m := merge3 (at_load pr) (names pr) (disk s) in
@@ -179,7 +184,8 @@ Definition step_proc (p : nat) (s : shared) (pr : proc) : option (shared * proc)
                  else Some (s, set_pc pr PCreate)
         | _ => Some (s, set_pc pr PCreate)
         end
-      else Some (s, set_pc pr (PReload PMkPlan))
+      else (* RetryAutopack restarts _do_autopack; RetryPackOperations restarts _try_pack_operations *)
+        Some (s, set_pc pr (PReload (match prole pr with RPack => PCount | _ => PMkPlan end)))
   | PCreate =>
       let y := repacked (plan pr) in
       if inb y (names pr)
@@ -220,8 +226,12 @@ Definition step_proc (p : nat) (s : shared) (pr : proc) : option (shared * proc)
       end
   | PRead =>
       if subset (names pr) (packs s)
-      then Some (s, Proc (prole pr) PDone (at_load pr) (names pr) [] [] false [] (all_revs (names pr)) (reloads pr))
+      then Some (s, Proc (prole pr) PRead2 (at_load pr) (names pr) [] [] false [] (all_revs (names pr)) (reloads pr))
       else Some (s, set_pc pr (PReload PRead))
+  | PRead2 =>
+      Some (s, set_pc pr (if subset (names pr) (packs s) then PRead3 else PReload PRead2))
+  | PRead3 =>
+      Some (s, set_pc pr (if subset (names pr) (packs s) then PDone else PReload PRead3))
   | PDone | PFail => None
   end.
 
